@@ -578,9 +578,56 @@ def rule_h9(F):
     return r
 
 
+def rule_h10(F):
+    """The address of a constant that is baked into machine code stays valid as long as the module: it is the address of a heap
+    allocation the entry owns (a pointer-typed field, `Arc::as_ptr`), never the address of the entry itself or of a field inside it -
+    the entries live in hash maps that move them when they grow (and `ModuleData` moves the maps).  Every accessor of RotoConstant /
+    ConstantValue that returns a raw pointer is examined: the returned value is not (a cast of) `&self.<field..>`."""
+    r = RuleResult("C11.H10", "constant addresses handed to generated code point to storage the entry owns on the heap, not into the (movable) entry itself", floor=1)
+    n = 0
+    for b in F.all_bodies():
+        if not b.mir or "{closure" in b.path or "::tests::" in b.path:
+            continue
+        ls = b.mir["locals"]
+        if b.mir.get("argc", 0) < 1 or not any(x in str(ls[1].get("ty") or "") for x in ("codegen::RotoConstant", "runtime::ConstantValue")):
+            continue
+        if not str(ls[0].get("ty") or "").startswith(("*mut", "*const")):
+            continue
+        n += 1
+        defs = mir.Defs(b)
+        interior = None
+        seen, work = set(), [0]
+        while work:
+            l = work.pop()
+            if l in seen:
+                continue
+            seen.add(l)
+            for d in defs.whole_defs(l):
+                if d[2] != "assign":
+                    continue          # a call result (Arc::as_ptr, NonNull::as_ptr ..) is not followed: it is what the callee returns
+                rv = d[3]["rv"]
+                if rv["k"] in ("ref", "rawptr", "addr"):
+                    pl = rv.get("p") or []
+                    if pl and pl[0] == 1 and pl[1:2] == ["*"] and "*" not in pl[2:] and any(isinstance(e, list) and e[0] == "f" for e in pl[2:]):
+                        interior = (d[3].get("line"), mir.proj_str(pl[1:]))
+                    elif pl:
+                        # a reborrow (`&raw mut *x`) of something that is itself followed
+                        work.append(pl[0])
+                else:
+                    work += mir.rv_locals(rv)
+        r.inst("%s" % b.path, {"fn": b.path, "returns": ls[0].get("ty"), "address_of_own_field": bool(interior)})
+        if interior:
+            r.bad(b.path, "address of the entry's own field", relfile(b.file), interior[0] or b.line,
+                  "%s returns the address of a field of the entry itself (%s): the entry lives in a hash map that relocates its entries when it grows, so an address baked into machine "
+                  "code that was generated earlier dangles while handles can still run that code" % (hir.last(b.path), ".".join(interior[1])))
+    if n == 0:
+        r.missing("pointer accessors of RotoConstant / ConstantValue")
+    return r
+
+
 def rules(ctx):
     F = ctx["F"]
-    return [rule_h1(F), rule_h2(F), rule_h3(F), rule_h4(F), rule_h5(F), rule_h7(F), rule_h8(F), rule_h9(F)]
+    return [rule_h1(F), rule_h2(F), rule_h3(F), rule_h4(F), rule_h5(F), rule_h7(F), rule_h8(F), rule_h9(F), rule_h10(F)]
 
 
 def thorough_rules(ctx):
